@@ -39,12 +39,14 @@ enum Kind : int {
                    // request nothing but S on that lock, so that the two shared grants of one thread can never wait for each other)
   kTwoLockCompositeAssign,  // manipulator only, OptimisticLock: cA = PrepareRead(A); cB = PrepareRead(B); cA = move(cB)
   kSelfMoveAssign,          // g = Lock*(); g = std::move(g); either outcome is accepted as long as ownership and grant agree (b: S/SIX/X)
+  kHandOver,                // g = Lock*(); the guard is moved to a fresh thread that never acquires anything, releases it and exits
   kKinds
 };
 const char *kKindName[] = {"S", "SIX", "X", "SIX->X", "X->SIX", "X->SIX->X", "SIX->X->SIX", "Opt{read;Verify}", "Opt{read;TryLockS}",
                            "Opt{read;TryLockSIX}", "Opt{read;TryLockX}", "PrepareRead{read;Verify}", "X(A);X(B);gA=move(gB)",
                            "empty-guard-ops", "S(A);S(A);g1=move(g2)",
-                           "PrepareRead(A);PrepareRead(B);cA=move(cB)", "g=move(g)"};
+                           "PrepareRead(A);PrepareRead(B);cA=move(cB)", "g=move(g)",
+                           "guard handed to a releasing thread"};
 // Op fields: a = extra yields inside the body (0..3) / retries for optimistic ops
 //            b = guard manipulation bits (below)
 //            c = SetVersion request for the (last) X part: 0 default, >0 fresh advance, <0 republish code
@@ -66,14 +68,14 @@ enum Profile : int {
 enum Probe : int {
   pSJoinedWaitingGroup = 0, pUpgradeWaitedForS, pPrepFallbackS, pPrepNonOwning, pTryFailed, pTrySucceeded, pVerifyFailed,
   pVerifyOk, pConflictWaited, pTwoGrants, pVersionWrap, pDowngradeAdmittedS, pSectionsDone, pNodeRecycled,
-  pFinalLockX, pCompAssignOwnTarget, pCompAssignOwnSource, pSelfMoveReleased, pSelfMoveKept, pProbes
+  pFinalLockX, pCompAssignOwnTarget, pCompAssignOwnSource, pSelfMoveReleased, pSelfMoveKept, pHandOver, pProbes
 };
 const char *const kProbeNames[] = {"s_request_waited_in_queue", "upgrade_waited_for_shared_holder", "prepare_read_took_shared_fallback",
                                    "prepare_read_returned_version", "trylock_failed", "trylock_succeeded", "verify_failed", "verify_ok",
                                    "request_waited_for_conflicting_holder", "manipulator_held_two_grants", "version_wrapped",
                                    "downgrade_admitted_shared", "sections_completed", "mcs_node_recycled",
                                    "final_lockx_done", "composite_move_assigned_over_owning_target", "composite_move_assigned_from_owning_source", "self_move_assignment_released_the_grant",
-                                   "self_move_assignment_kept_the_grant", nullptr};
+                                   "self_move_assignment_kept_the_grant", "guard_released_by_another_thread", nullptr};
 
 constexpr int kTagMcs = 1;
 constexpr int kNone = 0, kS = 1, kSIX = 2, kX = 3;
@@ -906,6 +908,89 @@ struct Runner {
     check_version_quiescent(B0, "release after move-assign");
   }
 
+  // a grant taken by one thread and released by another: the guard is moved into a box, a fresh thread receives it, uses the grant,
+  // destroys the guard and exits without ever having called Lock* itself (C07: released exactly once, by whoever owns the guard; C12:
+  // the queue node pooled by the releasing thread is freed when that thread exits).
+  template <int M>
+  struct Box {
+    Runner *r;
+    LS *L;
+    std::conditional_t<M == kS, SG, std::conditional_t<M == kSIX, SIXG, XG>> g;
+    uint32_t acquired;
+    int64_t c;
+    int yields;
+    int from_vt;
+  };
+  template <int M>
+  static void receiver_fn(void *p)
+  {
+    auto *b = static_cast<Box<M> *>(p);
+    Runner &r = *b->r;
+    LS &L = *b->L;
+    {
+      // the ghost grant moves from the acquiring thread (blocked in join) to this one without a gap: nothing has run between the
+      // start of this thread and here, and checks like "no X holder, so GetVersion returns" must never see the lock unowned
+      const int me = dsim::self();
+      L.mode[me] = L.mode[b->from_vt];
+      L.flags[me] = L.flags[b->from_vt] | fMoved;
+      L.held_from[me] = L.held_from[b->from_vt];
+      L.mode[b->from_vt] = kNone;
+      L.flags[b->from_vt] = 0;
+      if (L.x_holder == b->from_vt) L.x_holder = me;
+      L.reg_epoch++;
+    }
+    r.hb_begin(L, M, "hand-over");
+    r.expect_bool(b->g, true, "handed-over-guard");
+    if constexpr (M == kX) r.write_payload(L, b->yields); else r.read_payload_locked(L, b->yields, M, false);
+    if constexpr (M == kX) r.x_pre_release(L, b->g, b->acquired, b->c); else r.sx_pre_release(L, M, "release by the receiving thread");
+    {
+      auto local = std::move(b->g);
+    }
+    if constexpr (M == kX) r.x_post_release(L); else r.sx_post_release(L);
+    r.expect_bool(b->g, false, "moved-from-source");
+    delete b;
+    dsim::set_pos(1000);
+  }
+  template <int M>
+  void sec_hand_over(LS &L, const Op &op)
+  {
+    using G = std::conditional_t<M == kS, SG, std::conditional_t<M == kSIX, SIXG, XG>>;
+    const char *api = M == kS ? "LockS" : (M == kSIX ? "LockSIX" : "LockX");
+    L.outstanding++;
+    CallInfo ci = pre_call(L, api, M);
+    G g = [&]() -> G {
+      if constexpr (M == kS) return L.lock->LockS();
+      else if constexpr (M == kSIX) return L.lock->LockSIX();
+      else return L.lock->LockX();
+    }();
+    granted(L, ci, M, fMoved, api, true);
+    expect_bool(g, true, "Lock-result");
+    uint32_t acquired = 0;
+    if constexpr (M == kX) {
+      acquired = x_begin_version(L, g);
+      write_payload(L, 0);
+    } else {
+      read_payload_locked(L, 0, M, false);
+    }
+    if (dsim::next_vt_id() + 4 >= dsim::kMaxVT) {  // no vthread left for a receiver: an ordinary release
+      if constexpr (M == kX) x_pre_release(L, g, acquired, op.c); else sx_pre_release(L, M, "release");
+      {
+        G local{std::move(g)};
+      }
+      if constexpr (M == kX) x_post_release(L); else sx_post_release(L);
+      return;
+    }
+    auto *box = new Box<M>{this, &L, std::move(g), acquired, op.c, static_cast<int>(op.a), dsim::self()};
+    expect_bool(g, false, "moved-from-source");
+    hb_end(L, M);  // this thread's section ends here; its ghost grant is taken over by the receiver
+    dsim::probe(pHandOver);
+    sh.alive++;
+    const int child = dsim::spawn(receiver_fn<M>, box, "receiver");
+    dsim::join(child);
+    sh.alive--;
+    check_version_quiescent(L, "release by the receiving thread");
+  }
+
   // self move-assignment of an owning guard.  Whether it releases the grant (the guard then owns nothing) or leaves everything as it
   // was is the implementation's choice; what C07 fixes is that ownership and grant agree afterwards: a guard that converts to true
   // still holds (nobody else gets a conflicting grant, one release at destruction), a guard that converts to false has released once.
@@ -1373,6 +1458,11 @@ struct Runner {
         else sec_two_lock_assign(op);
         break;
       case kTwoLockCompositeAssign: sec_two_lock_composite_assign(op); break;
+      case kHandOver:
+        if (op.b % 3 == 0) sec_hand_over<kS>(L, op);
+        else if (op.b % 3 == 1) sec_hand_over<kSIX>(L, op);
+        else sec_hand_over<kX>(L, op);
+        break;
       case kSelfMoveAssign:
         if (op.b % 3 == 0) sec_self_move<kS>(L, op);
         else if (op.b % 3 == 1 || A::kOpt) sec_self_move<kSIX>(L, op);  // X on OptimisticLock: the version timeline needs to know in
@@ -1565,7 +1655,7 @@ void generate(Program &prog, dsim::Config &cfg, dsim::Rng &pr, dsim::Rng &cr, in
       break;
     case kGuards:
       set({{kSecS, 3}, {kSecSIX, 3}, {kSecX, 3}, {kSecSIXUp, 3}, {kSecXDown, 3}, {kSecXDownUp, 1}, {kSecSIXUpDown, 1}, {kEmptyGuards, 2},
-           {kTwoLockAssign, 0}, {kSelfMoveAssign, 2}});
+           {kTwoLockAssign, 0}, {kSelfMoveAssign, 2}, {kHandOver, 2}});
       if (opt) set({{kOptTryS, 1}, {kOptTrySIX, 1}, {kOptTryX, 2}, {kPrepRead, 3}});
       manip_percent = 75;
       manipulator = pr.chance(1, 2);
@@ -1587,7 +1677,7 @@ void generate(Program &prog, dsim::Config &cfg, dsim::Rng &pr, dsim::Rng &cr, in
       manip_percent = 0;
       break;
     case kNodes:
-      set({{kSecS, 6}, {kSecSIX, 3}, {kSecX, 4}, {kSecSIXUp, 2}, {kSecXDown, 2}, {kSecXDownUp, 1}});
+      set({{kSecS, 6}, {kSecSIX, 3}, {kSecX, 4}, {kSecSIXUp, 2}, {kSecXDown, 2}, {kSecXDownUp, 1}, {kHandOver, 1}});
       two_locks = pr.chance(1, 2);
       min_thr = 2;
       max_thr = 4;
